@@ -11,7 +11,7 @@ UNIVERSE = ["ExceptionGroup", "BaseExceptionGroup", "ClientClosedError", "Stream
 
 
 def register(R):
-    R.ghost(received="int", delivered="int", live_gens="int", handle_calls="int", disc_calls="int")
+    R.ghost(received="int", delivered="int", live_gens="int", handle_calls="int", disc_calls="int", last_timeout="opt[xreal]")
     R.external("collections.abc.AsyncGenerator", "stubs.async_backend.HandlerGen")
     R.external("inspect.isawaitable", "stubs.async_backend.always_true")
     R.external("contextlib.AsyncExitStack", "stubs.async_backend.AsyncExitStack")
@@ -37,17 +37,18 @@ def register(R):
                 "$anext_without_asyncgen_hook": "fn:stubs.async_backend:anext_model"},
         gen="env",
         locals_types={"timeout": "opt[xreal]", "action": "obj"},
-        yield_inv=[("all-received-so-far-forwarded", fwd, "C15"), ("exactly-the-active-generator-is-live", one_gen, "C15")],
+        yield_inv=[("all-received-so-far-forwarded", fwd, "C15"), ("exactly-the-active-generator-is-live", one_gen, "C15"),
+                   ("the-low-level-server-is-asked-to-wait-exactly-the-timeout-the-active-generator-just-yielded", "yielded == ghost.last_timeout", "C15")],
         loops={
-            1: {"inv": [fwd, one_gen, "not _on_connection_hook.finished", "_on_connection_hook.closed == 0", "ghost.disc_calls == old(ghost.disc_calls)",
+            1: {"inv": [fwd, one_gen, "timeout == ghost.last_timeout", "not _on_connection_hook.finished", "_on_connection_hook.closed == 0", "ghost.disc_calls == old(ghost.disc_calls)",
                         "ghost.handle_calls == old(ghost.handle_calls)"]},
             2: {"inv": [fwd, no_gen, "ghost.disc_calls == old(ghost.disc_calls)", "ghost.handle_calls >= old(ghost.handle_calls)"]},
-            3: {"inv": [fwd, one_gen, "not request_handler_generator.finished", "request_handler_generator.closed == 0", "ghost.disc_calls == old(ghost.disc_calls)",
+            3: {"inv": [fwd, one_gen, "timeout == ghost.last_timeout", "not request_handler_generator.finished", "request_handler_generator.closed == 0", "ghost.disc_calls == old(ghost.disc_calls)",
                         "ghost.handle_calls > old(ghost.handle_calls)"]},
         },
         ensures=exits,
         raises={"BaseException": exits + [("only-exceptions-that-are-not-Exception-leave-the-wrapper (given the initializer's contract)", "not typeof(exc, 'Exception')", "C17")]},
-        modifies=["ghost.received", "ghost.delivered", "ghost.live_gens", "ghost.handle_calls", "ghost.disc_calls"],
+        modifies=["ghost.received", "ghost.delivered", "ghost.live_gens", "ghost.handle_calls", "ghost.disc_calls", "ghost.last_timeout"],
         env={"yield_send": "obj", "yield_throw": "BaseException", "exc_universe": UNIVERSE,
              "ghost_on_send": {"received": "ghost.received + 1"},
              # a GeneratorExit thrown at the yield (aclose() of the wrapper) is not forwarded as an action: ThrowAction.asend closes the
@@ -69,11 +70,12 @@ def register(R):
                 "$anext_without_asyncgen_hook": "fn:stubs.async_backend:anext_model"},
         gen="env",
         locals_types={"timeout": "opt[xreal]", "action": "obj"},
-        yield_inv=[("all-received-so-far-forwarded", fwd, "C16"), ("exactly-the-active-generator-is-live", one_gen, "C16")],
-        loops={1: {"inv": [fwd, one_gen, "not request_handler_generator.finished", "request_handler_generator.closed == 0"]}},
+        yield_inv=[("all-received-so-far-forwarded", fwd, "C16"), ("exactly-the-active-generator-is-live", one_gen, "C16"),
+                   ("the-low-level-server-is-asked-to-wait-exactly-the-timeout-the-generator-just-yielded", "yielded == ghost.last_timeout", "C16")],
+        loops={1: {"inv": [fwd, one_gen, "timeout == ghost.last_timeout", "not request_handler_generator.finished", "request_handler_generator.closed == 0"]}},
         ensures=dexits,
         raises={"BaseException": dexits + [("only-exceptions-that-are-not-Exception-leave-the-wrapper (given the client context's contract)", "not typeof(exc, 'Exception')", "C17")]},
-        modifies=["ghost.received", "ghost.delivered", "ghost.live_gens", "ghost.handle_calls"],
+        modifies=["ghost.received", "ghost.delivered", "ghost.live_gens", "ghost.handle_calls", "ghost.last_timeout"],
         env={"yield_send": "obj", "yield_throw": "BaseException", "exc_universe": UNIVERSE,
              "ghost_on_send": {"received": "ghost.received + 1"},
              "ghost_on_throw": {"received": "ghost.received + ite(typeof(exc, 'GeneratorExit'), 0, 1)"}},
